@@ -21,12 +21,13 @@ Record Defects := mkDefects {
   d_underflow : bool;        (* MakeStrategyDecision: availableNum - reject wraps *)
   d_avail_voted : bool;      (* freeze/activate of an elector who already voted changes AvailableElectorateNum *)
   d_special_updavail : bool; (* UpdateAvailableElectorateNum concludes a special proposal without super-admin vote *)
-  d_unlock_closed : bool     (* unlockLowPriorityProposal re-opens / re-closes an already ended proposal *)
+  d_unlock_closed : bool;    (* unlockLowPriorityProposal re-opens / re-closes an already ended proposal *)
+  d_logout_inc : bool        (* a rejected logout increments AvailableElectorateNum although the logout request never decremented it *)
 }.
-Definition cfg_fixed : Defects := mkDefects false false false false false.
-Definition cfg_faithful : Defects := mkDefects true true true true true.
+Definition cfg_fixed : Defects := mkDefects false false false false false false.
+Definition cfg_faithful : Defects := mkDefects true true true true true true.
 Definition defects_of_bits (n : N) : Defects :=
-  mkDefects (N.testbit n 0) (N.testbit n 1) (N.testbit n 2) (N.testbit n 3) (N.testbit n 4).
+  mkDefects (N.testbit n 0) (N.testbit n 1) (N.testbit n 2) (N.testbit n 3) (N.testbit n 4) (N.testbit n 5).
 
 (** proposal status codes 0 proposed 1 paused 2 approved 3 rejected;
     end reasons 0 none 1 normal 2 zero-permission 3 withdrawn 4 priority 5 electorate 6 cleared;
@@ -272,10 +273,12 @@ Section Gov.
               else Ok st1
             else if seqb ev gov_ev_logout then
               if seqb next gov_ev_reject && is_avail_status s' then
-                match cascade st1 obj true with
-                | Ok s2 => Ok (update_strategy_info s2)
-                | Fail c => Fail c
-                end
+                if d_logout_inc cfg then
+                  match cascade st1 obj true with
+                  | Ok s2 => Ok (update_strategy_info s2)
+                  | Fail c => Fail c
+                  end
+                else Ok (update_strategy_info st1)
               else Ok st1
             else Ok st1
           end
@@ -717,7 +720,8 @@ Section Gov.
       7 a refused transaction changed state / a vote that must be refused was accepted
       8 governed object changed without a proposal on it being created or ended
       9 header of an existing proposal changed / electorate of a new one is not the available admins
-      10 electors counted as available do not cover the voters + available non-voters *)
+      10 electors counted as available do not cover the voters + available non-voters
+      11 more electors counted as available than the electorate has *)
   Definition olds (a b : state) := combine (s_props a) (s_props b).
   Definition news (a b : state) := skipn (List.length (s_props a)) (s_props b).
 
@@ -748,6 +752,9 @@ Section Gov.
     forallb (fun pq : proposal * proposal =>
                negb (is_open (fst pq) && (p_status (snd pq) =? ST_REJECTED) && by_tally (snd pq)) || avail_ok b (snd pq)) (olds a b).
 
+  Definition cl_bound (b : state) : bool :=
+    forallb (fun q : proposal => p_avail q <=? h_total (p_hdr q)) (s_props b).
+
   Definition step_ok (accts nodes : list N) (a : state) (o : op) (rc : N) (b : state) : N :=
     if negb (cl_final a b) then 1
     else if negb (cl_tally b) then 2
@@ -759,6 +766,7 @@ Section Gov.
     else if negb (cl_object accts nodes a b) then 8
     else if negb (cl_header a b) then 9
     else if negb (cl_avail a b) then 10
+    else if negb (cl_bound b) then 11
     else 0.
 
   (** trace = list of (op, rc, state after); returns 0 or step * 16 + clause *)
@@ -845,3 +853,13 @@ Definition check_case (pool : list bexp) (accts nodes weights : list N)
                          else match trace_diff N.eqb accts nodes m tr 0 with Some i => 1 + i | None => 0 end
              end in
   (p, m).
+
+(** the judge's property code on the MODEL's own trace under a defect configuration
+    (used for the [_refuted] witnesses and the non-vacuity examples) *)
+Definition model_code (pool : list bexp) (accts nodes weights : list N)
+           (strat : list (N * (bool * N * string))) (bits : N) (ops : list (@op N)) : N :=
+  let sem := pool_sem pool in
+  let st0 := init_state weights strat in
+  let rs := run_all N.eqb sem 0 (defects_of_bits bits) st0 ops in
+  trace_ok N.eqb sem accts nodes st0
+           (map (fun x : @op N * (@state N * N) => (fst x, snd (snd x), fst (snd x))) (combine ops rs)) 0.
